@@ -45,6 +45,12 @@ fn main() {
             }
             exit(registry::replay(&args[2]));
         }
+        "abort-demo" => {
+            if args.len() < 3 {
+                usage();
+            }
+            exit(c06::abort_demo(&args[2]));
+        }
         "selftest" => {
             let mut ok = true;
             for (g, l) in [(2, 2), (4, 3), (5, 4), (6, 5)] {
